@@ -111,10 +111,7 @@ fn parse_write_request(data: &[u8]) -> Result<WriteRequest> {
             (1, 2) => {
                 let (length, new_pos) = read_varint(data, pos)?;
                 pos = new_pos;
-                let end = pos + length as usize;
-                if end > data.len() {
-                    return Err(crate::Error::InvalidSchema("Truncated timeseries".into()));
-                }
+                let end = checked_end(data, pos, length, "Truncated timeseries")?;
                 let ts = parse_timeseries(&data[pos..end])?;
                 timeseries.push(ts);
                 pos = end;
@@ -127,16 +124,16 @@ fn parse_write_request(data: &[u8]) -> Result<WriteRequest> {
             }
             (_, 1) => {
                 // 64-bit
-                pos += 8;
+                pos = checked_end(data, pos, 8, "Truncated unknown field")?;
             }
             (_, 2) => {
                 // Length-delimited
                 let (length, new_pos) = read_varint(data, pos)?;
-                pos = new_pos + length as usize;
+                pos = checked_end(data, new_pos, length, "Truncated unknown field")?;
             }
             (_, 5) => {
                 // 32-bit
-                pos += 4;
+                pos = checked_end(data, pos, 4, "Truncated unknown field")?;
             }
             _ => {
                 return Err(crate::Error::InvalidSchema(format!(
@@ -168,10 +165,7 @@ fn parse_timeseries(data: &[u8]) -> Result<TimeSeries> {
             (1, 2) => {
                 let (length, new_pos) = read_varint(data, pos)?;
                 pos = new_pos;
-                let end = pos + length as usize;
-                if end > data.len() {
-                    return Err(crate::Error::InvalidSchema("Truncated label".into()));
-                }
+                let end = checked_end(data, pos, length, "Truncated label")?;
                 let label = parse_label(&data[pos..end])?;
                 labels.push(label);
                 pos = end;
@@ -180,10 +174,7 @@ fn parse_timeseries(data: &[u8]) -> Result<TimeSeries> {
             (2, 2) => {
                 let (length, new_pos) = read_varint(data, pos)?;
                 pos = new_pos;
-                let end = pos + length as usize;
-                if end > data.len() {
-                    return Err(crate::Error::InvalidSchema("Truncated sample".into()));
-                }
+                let end = checked_end(data, pos, length, "Truncated sample")?;
                 let sample = parse_sample(&data[pos..end])?;
                 samples.push(sample);
                 pos = end;
@@ -194,14 +185,14 @@ fn parse_timeseries(data: &[u8]) -> Result<TimeSeries> {
                 pos = new_pos;
             }
             (_, 1) => {
-                pos += 8;
+                pos = checked_end(data, pos, 8, "Truncated unknown field")?;
             }
             (_, 2) => {
                 let (length, new_pos) = read_varint(data, pos)?;
-                pos = new_pos + length as usize;
+                pos = checked_end(data, new_pos, length, "Truncated unknown field")?;
             }
             (_, 5) => {
-                pos += 4;
+                pos = checked_end(data, pos, 4, "Truncated unknown field")?;
             }
             _ => {
                 return Err(crate::Error::InvalidSchema(format!(
@@ -233,10 +224,7 @@ fn parse_label(data: &[u8]) -> Result<Label> {
             (1, 2) => {
                 let (length, new_pos) = read_varint(data, pos)?;
                 pos = new_pos;
-                let end = pos + length as usize;
-                if end > data.len() {
-                    return Err(crate::Error::InvalidSchema("Truncated label name".into()));
-                }
+                let end = checked_end(data, pos, length, "Truncated label name")?;
                 name = String::from_utf8_lossy(&data[pos..end]).to_string();
                 pos = end;
             }
@@ -244,10 +232,7 @@ fn parse_label(data: &[u8]) -> Result<Label> {
             (2, 2) => {
                 let (length, new_pos) = read_varint(data, pos)?;
                 pos = new_pos;
-                let end = pos + length as usize;
-                if end > data.len() {
-                    return Err(crate::Error::InvalidSchema("Truncated label value".into()));
-                }
+                let end = checked_end(data, pos, length, "Truncated label value")?;
                 value = String::from_utf8_lossy(&data[pos..end]).to_string();
                 pos = end;
             }
@@ -257,14 +242,14 @@ fn parse_label(data: &[u8]) -> Result<Label> {
                 pos = new_pos;
             }
             (_, 1) => {
-                pos += 8;
+                pos = checked_end(data, pos, 8, "Truncated unknown field")?;
             }
             (_, 2) => {
                 let (length, new_pos) = read_varint(data, pos)?;
-                pos = new_pos + length as usize;
+                pos = checked_end(data, new_pos, length, "Truncated unknown field")?;
             }
             (_, 5) => {
-                pos += 4;
+                pos = checked_end(data, pos, 4, "Truncated unknown field")?;
             }
             _ => {
                 return Err(crate::Error::InvalidSchema(format!(
@@ -313,14 +298,14 @@ fn parse_sample(data: &[u8]) -> Result<Sample> {
                 pos = new_pos;
             }
             (_, 1) => {
-                pos += 8;
+                pos = checked_end(data, pos, 8, "Truncated unknown field")?;
             }
             (_, 2) => {
                 let (length, new_pos) = read_varint(data, pos)?;
-                pos = new_pos + length as usize;
+                pos = checked_end(data, new_pos, length, "Truncated unknown field")?;
             }
             (_, 5) => {
-                pos += 4;
+                pos = checked_end(data, pos, 4, "Truncated unknown field")?;
             }
             _ => {
                 return Err(crate::Error::InvalidSchema(format!(
@@ -335,6 +320,16 @@ fn parse_sample(data: &[u8]) -> Result<Sample> {
         timestamp_ms,
         value,
     })
+}
+
+/// End offset of a `length`-byte field starting at `pos`, or an error if the (attacker
+/// controlled) length overflows or runs past the end of the buffer.
+fn checked_end(data: &[u8], pos: usize, length: u64, what: &str) -> Result<usize> {
+    usize::try_from(length)
+        .ok()
+        .and_then(|length| pos.checked_add(length))
+        .filter(|end| *end <= data.len())
+        .ok_or_else(|| crate::Error::InvalidSchema(what.into()))
 }
 
 /// Read a varint from the buffer, returning (value, new_position)
